@@ -21,13 +21,21 @@ def main():
     quick = ck.tier == 'quick'
     P = ['C01', 'CRASH']
     # E1: the arithmetic half - kernel contract K for every double threshold
-    e1_stage.run_contract(ck, ck.tier, max_obligations=150 if quick else None)
+    e1_stage.run_contract(ck, ck.tier, max_obligations=200 if quick else None)
     # E2: structural half on the real set_sim_join, arbitrary token order, real kernel
     thr = [0.5, 0.8] if quick else [0.3, 0.5, 0.75, 0.8, 1.0]
     for measure in ('JACCARD', 'COSINE', 'DICE'):
         ck.e2('core-%s-1x2' % measure, h_core.make(dict(
             entry='set_sim_join', measure=measure, nl=1, nr=2, k=3, thresholds=thr,
             comp_ops=['>=', '>', '='], props=P)), bounds=dict(rows='1x2', k=3, thresholds=thr))
+    # one wide pair: asymmetric sizes up to 5 tokens (positional bounds with unequal sizes)
+    for measure in ('JACCARD', 'COSINE', 'DICE'):
+        ck.e2('core-%s-1x1-k5' % measure, h_core.make(dict(
+            entry='set_sim_join', measure=measure, nl=1, nr=1, k=5, thresholds=[0.3, 0.5, 0.8],
+            comp_ops=['>='], props=P)), bounds=dict(rows='1x1', k=5, thresholds=[0.3, 0.5, 0.8]))
+    ck.e2('core-contract-JACCARD-1x1-k4', h_core.make(dict(
+        entry='set_sim_join', measure='JACCARD', nl=1, nr=1, k=4, kernel='contract', comp_ops=['>='], props=P)),
+        bounds=dict(rows='1x1', k=4, threshold='symbolic, kernel under K'))
     if not quick:
         for measure in ('JACCARD', 'COSINE', 'DICE'):
             ck.e2('core-%s-2x2' % measure, h_core.make(dict(
